@@ -828,7 +828,7 @@ def sym_pow(a, b):
         return a ** b
     if not is_sym(b):
         bf = builtins.float(b)
-        if bf == int(bf) and abs(bf) <= 8:
+        if bf == int(bf) and abs(bf) <= 40:
             n = int(bf)
             if n == 0:
                 return 1.0
@@ -858,6 +858,8 @@ def sym_pow(a, b):
     c.add_axiom(z3.Implies(az == 1, p == 1))
     c.add_axiom(z3.Implies(z3.And(az > 0, bz == 0), p == 1))
     c.add_axiom(z3.Implies(bz == 1, p == az))
+    c.add_axiom(z3.Implies(z3.And(az > 1, bz > 0), p > 1))
+    c.add_axiom(z3.Implies(z3.And(az > 0, az < 1, bz > 0), p < 1))
     for (a0, b0, p0) in c.trans.get("pow", []):
         # same exponent: monotone in the base (b > 0), antitone (b < 0)
         c.add_axiom(z3.Implies(z3.And(b0 == bz, bz > 0, a0 > 0, az > 0, a0 < az), p0 < p))
